@@ -61,8 +61,11 @@ def run(ctx):
         consumers = [('keys.PrivateKey.from_wif', fd), ('bip32.PubKeyNode.parse', fd), ('helper.b58decode_addr', fd)]
         for q, target in consumers:
             fi = p.get_function(q)
-            hit = [cs for cs in p.calls_from(fi) if target in cs.targets]
-            ob.require(len(hit) >= 1, '%s does not decode through decode_base58_checksum' % q, fi.where)
+            reach = p.reachable_from([fi])
+            ob.require(target in reach, '%s does not decode through decode_base58_checksum' % q, fi.where)
+            ob.require(fdb not in {t for f_ in reach if f_ is not target and f_ not in p.reachable_from([target])
+                                   for cs in p.calls_from(f_) for t in cs.targets},
+                       '%s reaches the bare Base58 decoder without the checksum' % q, fi.where)
     # ---------------------------------------------------------------- alphabet and raising lookup
     with ctx.obligation('C10.ALPHA', 'helper.BASE58_ALPHABET', None, 'btc_hd_wallet/helper.py') as ob:
         ev = Evaluator(p, 'ecdsa')
